@@ -176,6 +176,15 @@ def _children_of(pid):
     return sorted(live), zombies
 
 
+def _harness_thread_signals():
+    """the harness's own threads inside the server process must not take the server's signals: with SIGCHLD blocked here the
+    kernel delivers it to the main thread, as in an ordinary (single-threaded) ForkingServer process"""
+    try:
+        signal.pthread_sigmask(signal.SIG_BLOCK, {signal.SIGCHLD})
+    except (AttributeError, ValueError, OSError):
+        pass
+
+
 class _Child(object):
     def __init__(self, args):
         self.kind = args.kind
@@ -292,6 +301,7 @@ class _Child(object):
 
     # ---- control threads
     def reader(self):
+        _harness_thread_signals()
         try:
             with os.fdopen(0, "rb", buffering=0, closefd=False) as f:
                 buf = b""
@@ -313,6 +323,7 @@ class _Child(object):
             os._exit(0)
 
     def executor(self):
+        _harness_thread_signals()
         srv = self.server
         t0 = time.time()
         def started():
